@@ -4,6 +4,7 @@ import functools
 import operator
 import typing as t
 from abc import abstractmethod
+from collections.abc import Set as AbstractSet
 from dataclasses import dataclass, field, replace
 
 from packaging.markers import default_environment
@@ -227,7 +228,7 @@ class MarkerExpression(SingleMarker):
         oper = _operators.get(op)
         if self.name in MARKERS_ALLOWING_SET:
             lhs = normalize_name(lhs)
-            if isinstance(rhs, (set, frozenset)):
+            if isinstance(rhs, AbstractSet):
                 rhs = {normalize_name(v) for v in rhs}
             else:
                 rhs = normalize_name(rhs)
